@@ -18,6 +18,10 @@ RULE = ("after any err edge: Yerr exactly once, then END; no W/R/Wack in phases 
 def run(ctx, chk):
     rules_c05.run(ctx, chk, prop="C06")
     io_rules(ctx, chk)
+    # a connection that ends mid-exchange must surface as an error of read_packet: the source is
+    # only read with read_exact (shared rule with C04-a)
+    import rules_c04
+    rules_c04.source_reads(ctx, chk, "C06/eof")
 
 
 def io_rules(ctx, chk):
